@@ -71,7 +71,7 @@ REASONS = {}
 INCLUDES = {
     "C02": "Also runs C15's rules on Frame::read (the second decoding entry point hands the unmodified line to from_bytes), as C02.read(..).",
     "C05": "The frame<->bytes leg is decided by running C01's codec rule set as part of this check, as C05.wire(..).",
-    "C08": "The data plane is decided by running the component rule sets as part of this check: C09.O2-O4 (chunking), C13.O2 (reassembly), C07.O1/O3 (page length), as C08.data(..).",
+    "C08": "The data plane is decided by running the component rule sets as part of this check: C09.O2-O4 (chunking), C13.O2 (reassembly), C07.O1/O3 (page length), as C08.data(..); that the bus hands every message to the sign and returns its reply (C14.O4) and that no sign handler panics (C12) are legs of the composition too, as C08.bus(..) / C08.total(..). Controller and sign are extracted at both extremes of the log level.",
     "C13": "What a complete page of the configured size is (Page::from_bytes / Page::new, C07.O1/O3) is decided here too, as C13.page(..).",
     "C16": "Frame::write / Frame::read themselves (exactly the frame's encoding with CRLF, exactly one line, errors surfaced) are decided by running C15's rule set here too, as C16.io(..).",
     "C17": "The byte-stream leg (Frame::read / Frame::write) is decided by running C15's rule set here too, as C17.io(..).",
